@@ -3,12 +3,13 @@ import SageoptModel.Drv.Solvers
 import SageoptModel.Drv.Sig
 import SageoptModel.Drv.SigL
 import SageoptModel.Drv.SigCalc
+import SageoptModel.Drv.Compile
 open Lean
 
 namespace Sageopt.Drv
 
 def allHandlers : List (String × Handler) :=
-  GF2.handlers ++ Solvers.handlers ++ Sig.handlers ++ SigL.handlers ++ SigCalc.handlers
+  GF2.handlers ++ Solvers.handlers ++ Sig.handlers ++ SigL.handlers ++ SigCalc.handlers ++ Compile.handlers
 
 def dispatch (line : String) : String :=
   match Json.parse line with
